@@ -321,6 +321,24 @@ def run(pid, tier="quick", jobs=None, keep=False, only=None):
             for fut in cf.as_completed(futs):
                 c = futs[fut]
                 results[c.fn] = fut.result()
+        # a budget that ran out (machine under load) is retried once with three times the budget before the condition is
+        # reported inconclusive (prop) or its twin as unreachable; never done for searches, and a verdict is never overridden
+        retry = [c for c in order if c.kind != "search" and c.fn in results and _parse(results[c.fn])[0] in ("not_confirmed", "no_precondition")]
+        if retry:
+            import dataclasses
+
+            with cf.ThreadPoolExecutor(max_workers=jobs) as ex:
+                futs = {}
+                for c in retry:
+                    open(pathlogs[c.fn], "w").close()
+                    c3 = dataclasses.replace(c, timeout=c.timeout * 3)
+                    futs[ex.submit(_run_crosshair, path, lines[c.fn][0] + 1, c3, pathlogs[c.fn], {})] = c
+                for fut in cf.as_completed(futs):
+                    c = futs[fut]
+                    first = results[c.fn]
+                    results[c.fn] = fut.result()
+                    results[c.fn]["seconds"] = round(results[c.fn]["seconds"] + first["seconds"], 2)
+                    results[c.fn]["retried"] = True
     native_results = [f.result() for f in native_futs]
     native_pool.shutdown()
 
@@ -350,6 +368,8 @@ def run(pid, tier="quick", jobs=None, keep=False, only=None):
                "seconds": res["seconds"], "budget_cpu_s": c.timeout}
         if c.note:
             rep["note"] = c.note
+        if res.get("retried"):
+            rep["retried_with_budget_s"] = c.timeout * 3
         if verdict == "counterexample":
             call = extract_call(detail)
             rep["counterexample"] = detail[:600]
